@@ -2,7 +2,7 @@
    Statements only.  The model takes the roots of the filter as the implementation computes them
    (config.rs canonical_input_paths after the F14 fix); independence of the spelling of the roots is a
    correspondence-level obligation checked on every run (vlib/props/c06.py). *)
-From FV Require Import Base ListLib GroupModel GroupProofs GroupProofs2 GroupProofs3 GroupProofs4 GroupWitness.
+From FV Require Import Base ListLib GroupModel GroupProofs GroupProofs2 GroupProofs3 GroupProofs4 GroupProofs5 GroupWitness.
 Open Scope N_scope.
 
 (* The counting rule.  A member belongs to the FIRST root (in command-line order) that is a component-wise
@@ -56,17 +56,33 @@ Proof. exact subgroup_count_perm. Qed.
 Print Assumptions C06_count_order_independent.
 
 (* A class is reported iff its count passes the filter, and a reported group lists exactly the class.
-   `_partial`: without --transform (see Props_C03.v).  Known findings: K11 (Props_C01.v) and K10 below. *)
-Theorem C06_reported_iff_partial_except_K11 :
+   (K10 and K11, found by this development, are repaired: e6af885, f4a00ae.) *)
+Theorem C06_reported_iff :
   forall (H : list N -> hash) (T : list N -> option (list N)) (c : gcfg) (n : nd) (scanned : list file),
     wf_nd n -> (forall st f, fails n st f = false) ->
     wf_ids scanned -> wf_len scanned -> wf_paths scanned ->
-    collision_free H c scanned -> ~ K11 c scanned -> transform c = false -> skip_content c = false ->
+    collision_free H c scanned -> transform c = false -> skip_content c = false ->
     let out := group_files H T c n scanned in
     (forall f, ok c scanned f -> ((exists g, In g out /\ In f (gfiles g)) <-> qualifies c scanned f)) /\
     (forall g f, In g out -> In f (gfiles g) -> is_class c scanned f (gfiles g) /\ matches_strictly c g = true).
 Proof. exact c06_reported_iff. Qed.
-Print Assumptions C06_reported_iff_partial_except_K11.
+Print Assumptions C06_reported_iff.
+
+(* the same under --transform (classes of the transform output; the final filter is strict since e6af885) *)
+Theorem C06_reported_iff_transform :
+  forall (H : list N -> hash) (T : list N -> option (list N)) (c : gcfg) (n : nd) (scanned : list file),
+    wf_nd n -> (forall st f, fails n st f = false) ->
+    wf_ids scanned -> wf_paths scanned -> collision_free_T H T scanned -> transform c = true ->
+    let out := group_files H T c n scanned in
+    (forall f0, ok' c scanned f0 -> hasT T f0 = true ->
+       ((exists g, In g out /\ In (tfile T f0) (gfiles g)) <-> qualifiesT T c scanned f0)) /\
+    (forall g f0 cl, In g out -> ok' c scanned f0 -> In (tfile T f0) (gfiles g) -> is_classT T c scanned f0 cl ->
+       Permutation.Permutation (gfiles g) (map (tfile T) cl)).
+Proof.
+  intros H T c n scanned Hnd Hnf Hids Hp Hcf Htr.
+  destruct (c03_transform H T c n scanned Hnd Hnf Hids Hp Hcf Htr) as (_ & _ & _ & A & B). split; [exact A|exact B].
+Qed.
+Print Assumptions C06_reported_iff_transform.
 
 (* reported iff count > rf_over, resp. count < rf_under (--unique = rf_under 2) *)
 Theorem C06_filter_rule :
@@ -77,24 +93,6 @@ Theorem C06_filter_rule :
                            end.
 Proof. reflexivity. Qed.
 Print Assumptions C06_filter_rule.
-
-Theorem C06_K11_witness :
-  exists (H : list N -> hash) (T : list N -> option (list N)) (c : gcfg) (n : nd) (scanned : list file),
-    wf_nd n /\ (forall st f, fails n st f = false) /\ wf_ids scanned /\ wf_len scanned /\ collision_free H c scanned /\
-    skip_content c = false /\ transform c = false /\ K11 c scanned /\
-    exists g f, In g (group_files H T c n scanned) /\ In f (gfiles g) /\ ~ is_class c scanned f (gfiles g).
-Proof. exact k11_witness_c06. Qed.
-Print Assumptions C06_K11_witness.
-
-(* Known finding K10 (not fixed in /repo): group_transformed applies only the permissive filter, so with
-   --transform and an under-replication search (--unique / --rf-under) every class is reported. *)
-Theorem C06_K10_witness :
-  exists (H : list N -> hash) (T : list N -> option (list N)) (c : gcfg) (n : nd) (scanned : list file),
-    wf_nd n /\ (forall st f, fails n st f = false) /\ wf_ids scanned /\ wf_len scanned /\
-    collision_free_T H T scanned /\ K10 c /\
-    exists g, In g (group_files H T c n scanned) /\ matches_strictly c g = false.
-Proof. exact k10_witness. Qed.
-Print Assumptions C06_K10_witness.
 
 (* Non-vacuity: the README's example — four hard links of one file plus a copy: 2 replicas by default,
    5 with --match-links, and with --isolate over two roots one replica per root. *)
